@@ -928,7 +928,7 @@ func runSeqCell(o *seqOps, cell seqCell, n int, npos int, r *rng, malformed int)
 	// malformed calls: a second data argument, an argument of an unknown type, a source whose items have another type
 	switch malformed {
 	case 1: // two data arguments (the priority of the final switch decides)
-		extra := genVals(o.gen, pick(r, []int{0, 1, 3}), r)
+		extra := genVals(o.gen, pick(r, []int{0, 1, 2, 3}), r)
 		switch r.intn(4) {
 		case 0:
 			addSlice(extra)
@@ -1128,13 +1128,19 @@ func runPairCell(o *pairOps, cell pairCell, n int, npos int, r *rng, malformed i
 	}
 	switch malformed {
 	case 1:
-		m := pick(r, []int{0, 1, 3})
+		m := pick(r, []int{0, 1, 2, 3})
 		eks, evs := genVals(o.genK, m, r), genVals(o.genV, m, r)
-		switch r.intn(3) {
+		switch r.intn(4) {
 		case 0:
 			addASlice(eks, evs)
 		case 1:
 			addASeq(pick(r, []string{"Array", "List", "Catalog"}), eks, evs)
+		case 2:
+			if oracleAt < 0 && cell.kind == "Map" { // (one oracle per call; a catalog's order would need the winner's)
+				addGoMap(eks, evs)
+			} else {
+				addASlice(eks, evs)
+			}
 		default:
 			addSource(eks, evs, cell.kind)
 		}
@@ -1334,8 +1340,8 @@ func genFacade(prop string, seed uint64, tier, outDir string, count int) error {
 		}
 		npos := (round/2 + cell + phN) % 3
 		malformed := 0
-		if cr.chance(1, 11) {
-			malformed = 1 + cr.intn(3)
+		if cr.chance(1, 8) {
+			malformed = []int{1, 1, 2, 3}[cr.intn(4)]
 		}
 		var c *fcase
 		switch {
@@ -1382,7 +1388,7 @@ func genFacade(prop string, seed uint64, tier, outDir string, count int) error {
 		meta.Traces = append(meta.Traces, c.trace())
 	}
 	meta.Cases = len(cases)
-	meta.Rule = "one case = one call of a module-level constructor; the (kind, argument form) cells are visited round-robin, element/key types (7, and 49 key/value pairs), sizes (0,1,2,15,16,17,20,3,5,8 and 1/6 random 0..20) and notation position (none/first/last; for associations also between key and value) rotate with seed-dependent phases; 1/11 of the calls are malformed (two data arguments, unknown argument types, ill-typed or unparsable sources, swapped/missing association arguments); a case is distinct and non-trivial when it has at least one argument and its (kind, types, encoded argument list) differs from every other case"
+	meta.Rule = "one case = one call of a module-level constructor; the (kind, argument form) cells are visited round-robin, element/key types (7, and 49 key/value pairs), sizes (0,1,2,15,16,17,20,3,5,8 and 1/6 random 0..20) and notation position (none/first/last; for associations also between key and value) rotate with seed-dependent phases; 1/8 of the calls are malformed (two data arguments, unknown argument types, ill-typed or unparsable sources, swapped/missing association arguments); a case is distinct and non-trivial when it has at least one argument and its (kind, types, encoded argument list) differs from every other case"
 	meta.Extra["predicate_violations_count"] = nviol
 	meta.Extra["predicate_violations"] = predViolations
 	meta.Extra["predicates"] = "evaluated in Go on the implementation for every well-formed case: (a) module-level result = class-level result on the same data (kind, contents, order, capacity, collator identity; order ignored only where a Go map is the source of a catalog), (b) source form: contents and order = those of ParseSource on the same text (as sets for Set and Map)"
